@@ -7,5 +7,6 @@ pins = {}
 for f in sorted(os.listdir(os.path.join(vlib.COQ, "Props"))):
     if f.endswith(".v"):
         pins[f[:-2]] = vlib.props_pin(f[:-2])
+pins["Tie"] = vlib.tie_pin()
 json.dump(pins, open(os.path.join(vlib.COQ, "props.pinned.json"), "w"), indent=1)
 print(len(pins), "pinned")
